@@ -13,7 +13,15 @@
     Theorem [percall_no_interference]: with per-call defaults, for EVERY interleaving of
     constructions and steps of any solvers, no existing solver's L (its observable state here)
     is changed by the construction or the steps of another one.  [shared_interferes]: with a
-    shared default the first solver steps with the L of the second. *)
+    shared default the first solver steps with the L of the second.
+
+    Second part (helper objects with contents, e.g. GenericSubproblemSolver.minimize_kwargs,
+    which since 181f4c4 is created per instance: [if minimize_kwargs is None: minimize_kwargs =
+    {"options": {"maxiter": 100}}]): with per-call defaults no two objects share a helper, and a
+    write through one object's helper is invisible through every other object, for every history
+    of constructions and writes ([percall_helpers_not_shared], [percall_write_invisible]).
+    [shared_write_visible] documents why the shared form (a mutable default ARGUMENT, one object
+    for all calls) is wrong; it is not a finding of the tree. *)
 From Coq Require Import List Arith Lia.
 Import ListNotations.
 
@@ -133,8 +141,104 @@ Lemma shared_interferes :
   Ls Z (run Z 0%Z PerCall witness_ops (empty Z)) = [8%Z; 20%Z].
 Proof. vm_compute. split; reflexivity. Qed.
 
+(** ---- helper objects with contents ---- *)
+Section HC.
+  Variable V : Type.
+  Variable d0 : V.                      (* the default content, e.g. {"options": {"maxiter": 100}} *)
+
+  Record hworld := mkh { hloc : list nat; hval : list V }.   (* helper location of object i; heap *)
+  Definition hempty : hworld := mkh [] [].
+
+  Definition hconstruct (m : mode) (w : hworld) : hworld :=
+    match m with
+    | PerCall => mkh (hloc w ++ [length (hval w)]) (hval w ++ [d0])
+    | Shared => mkh (hloc w ++ [0]) (match hval w with [] => [d0] | _ => hval w end)
+    end.
+  Definition hwrite (w : hworld) (i : nat) (v : V) : hworld :=
+    mkh (hloc w) (set_nth (hval w) (nth i (hloc w) 0) v).
+  Definition hread (w : hworld) (i : nat) : V := nth (nth i (hloc w) 0) (hval w) d0.
+
+  Inductive hop := HConstruct | HWrite (i : nat) (v : V).
+  Definition hexec (m : mode) (o : hop) (w : hworld) : hworld :=
+    match o with HConstruct => hconstruct m w | HWrite i v => hwrite w i v end.
+  Definition hrun (m : mode) (ops : list hop) (w : hworld) : hworld :=
+    fold_left (fun w o => hexec m o w) ops w.
+
+  (** every object has its helper, and no two objects have the same one *)
+  Definition hwf (w : hworld) : Prop :=
+    (forall i, i < length (hloc w) -> nth i (hloc w) 0 < length (hval w)) /\
+    (forall i j, i < length (hloc w) -> j < length (hloc w) ->
+                 nth i (hloc w) 0 = nth j (hloc w) 0 -> i = j).
+
+  Lemma set_nth_length {A} (l : list A) n a : length (set_nth l n a) = length l.
+  Proof. revert n. induction l as [|x r IH]; intros [|n]; cbn; auto. Qed.
+  Lemma nth_set_nth_eq {A} (l : list A) n a d : n < length l -> nth n (set_nth l n a) d = a.
+  Proof. revert n. induction l as [|x r IH]; intros [|n] H; cbn in *; try lia; auto. apply IH. lia. Qed.
+  Lemma nth_set_nth_neq {A} (l : list A) n m a d : n <> m -> nth m (set_nth l n a) d = nth m l d.
+  Proof. revert n m. induction l as [|x r IH]; intros [|n] [|m] H; cbn; auto; try congruence. Qed.
+
+  Lemma hwf_empty : hwf hempty.
+  Proof. split; cbn; intros; lia. Qed.
+
+  Lemma hwf_construct w : hwf w -> hwf (hconstruct PerCall w).
+  Proof.
+    intros [W1 W2]. unfold hconstruct. split; cbn [hloc hval].
+    - intros i H. rewrite app_length in *. cbn [length] in *.
+      destruct (Nat.eq_dec i (length (hloc w))) as [->|N].
+      + rewrite app_nth2 by apply le_n. rewrite Nat.sub_diag. cbn. lia.
+      + rewrite app_nth1 by lia. specialize (W1 i ltac:(lia)). lia.
+    - intros i j Hi Hj. rewrite app_length in Hi, Hj. cbn [length] in Hi, Hj.
+      destruct (Nat.eq_dec i (length (hloc w))) as [->|Ni];
+      destruct (Nat.eq_dec j (length (hloc w))) as [->|Nj]; intro E; auto.
+      + rewrite app_nth2 in E by apply le_n. rewrite Nat.sub_diag in E. cbn [nth] in E.
+        rewrite app_nth1 in E by lia. specialize (W1 j ltac:(lia)). lia.
+      + rewrite (app_nth2 _ _ _ (le_n _)) in E. rewrite Nat.sub_diag in E. cbn [nth] in E.
+        rewrite app_nth1 in E by lia. specialize (W1 i ltac:(lia)). lia.
+      + rewrite !app_nth1 in E by lia. apply W2; auto; lia.
+  Qed.
+
+  Lemma hwf_write w i v : hwf w -> hwf (hwrite w i v).
+  Proof. intros [W1 W2]. split; cbn [hwrite hloc hval]; [|exact W2]. intros k H. rewrite set_nth_length. auto. Qed.
+
+  (** for every history of constructions and writes: helpers are never shared *)
+  Theorem percall_helpers_not_shared :
+    forall ops w, hwf w -> hwf (hrun PerCall ops w).
+  Proof.
+    induction ops as [|o r IH]; intros w W; [exact W|].
+    change (hrun PerCall (o :: r) w) with (hrun PerCall r (hexec PerCall o w)).
+    apply IH. destruct o; cbn [hexec]; auto using hwf_construct, hwf_write.
+  Qed.
+
+  (** a write through object i is seen through i and through no other object *)
+  Theorem percall_write_invisible :
+    forall w i j v, hwf w -> i < length (hloc w) -> j < length (hloc w) -> i <> j ->
+      hread (hwrite w i v) i = v /\ hread (hwrite w i v) j = hread w j.
+  Proof.
+    intros w i j v [W1 W2] Hi Hj N. unfold hread, hwrite. cbn [hloc hval]. split.
+    - apply nth_set_nth_eq. auto.
+    - apply nth_set_nth_neq. intro E. apply N. apply W2; auto.
+  Qed.
+End HC.
+
+(** why a shared default object is wrong: a = K(); b = K(); a.kw["maxiter"] = 1 changes b.kw *)
+Lemma shared_write_visible :
+  let ops := [HConstruct Z; HConstruct Z; HWrite Z 0 1%Z] in
+  hread Z 100%Z (hrun Z 100%Z Shared ops (hempty Z)) 1 = 1%Z /\
+  hread Z 100%Z (hrun Z 100%Z PerCall ops (hempty Z)) 1 = 100%Z /\
+  hread Z 100%Z (hrun Z 100%Z PerCall ops (hempty Z)) 0 = 1%Z.
+Proof. vm_compute. repeat split. Qed.
+
 (** harness interface: ops (code 0 = construct L0, 1 = step i), observed list of L *)
 Definition sd_op (t : nat * Z) : op Z := match fst t with 0 => Construct Z (snd t) | _ => Step Z (Z.to_nat (snd t)) end.
 Definition zlist_eqb (a b : list Z) : bool := if list_eq_dec Z.eq_dec a b then true else false.
 Definition sd_case_ok (c : list (nat * Z) * list Z) : bool :=
   zlist_eqb (Ls Z (run Z 0%Z PerCall (map sd_op (fst c)) (empty Z))) (snd c).
+
+(** helper-content histories: ops (code 0 = construct, 1 = write object i value v), observed
+    content read through every object at the end *)
+Definition hc_op (t : nat * nat * Z) : hop Z :=
+  let '(c, i, v) := t in match c with 0 => HConstruct Z | _ => HWrite Z i v end.
+Definition hc_case_ok (c : Z * list (nat * nat * Z) * list Z) : bool :=
+  let '(d0, ops, obs) := c in
+  let w := hrun Z d0 PerCall (map hc_op ops) (hempty Z) in
+  zlist_eqb (map (hread Z d0 w) (seq 0 (length (hloc Z w)))) obs.
